@@ -728,6 +728,14 @@ func (c *ControlPlane) handlePkt(lConn *net.UDPConn, data []byte, src, realDst n
 			// Not a QUIC Initial packet - skip sniffing entirely.
 			// Even if there's an existing sniffer session, non-QUIC packets
 			// should not be delayed by the sniffing process.
+			//
+			// This packet creates the flow's endpoint, after which sniffing never
+			// resumes for the flow. Datagrams an unfinished sniff is still holding
+			// back would be stranded until the session expires, so release them
+			// now, ahead of this packet, in ingress order.
+			if flowDecision.HasSnifferSession {
+				replayPackets = DefaultPacketSnifferSessionMgr.TakeFlowFamilyBufferedPackets(flowDecision.PacketSnifferKey())
+			}
 			goto afterSniffing
 		}
 
